@@ -12,7 +12,7 @@ func init() {
 	register(&propertyDef{
 		id:    "C03",
 		title: "the run result is the one the workflow's declarative meaning prescribes",
-		rules: []ruleFunc{c03R1, c03R2, c03R3, c03R4, c03R5, c03R6, c03R7, c03R8, c03R9, c03R10},
+		rules: []ruleFunc{c03R1, c03R2, c03R3, c03R4, c03R5, c03R6, c03R7, c03R8, c03R9, c03R10, c03R11, c03R12},
 		decided: "necessary conditions only: unresolvable nodes never produce an output or a stage input (R1); the returned id and data come from the same workflow-output node (R2); when a stage output is produced every alternative output of that stage is marked unresolvable, the only skip being the produced one (R3); " +
 			"Execute has exactly one success return, guarded by the output-schema lookup and validation, all other returns carry an error and empty results (R4); the no-output-possible error is raised (R5 = C01.R6). Every result-less return carries a provably non-nil error (R4). Shared: a stage is reported done only after its input was received (R8 = C12.R12); every reference is wired into the DAG (R6 = C02.R2) and stage outputs are published before notification in one critical section (R7 = C02.R4).",
 		notDecided: "which output wins among several producible ones, equality of the data with a reference evaluation of the expressions, unresolvability propagation inside dgraph (these need an interpreter and runs).",
@@ -432,4 +432,84 @@ func (c *Ctx) errorProvablyNonNil(fn *ssa.Function, ret *ssa.Return, v ssa.Value
 		}
 	}
 	return false, "origin: " + valueOrigin(v)
+}
+
+// C03.R11 the run waits for every declared output.
+func c03R11(c *Ctx) {
+	const rule = "C03.R11"
+	c.explain("C03.R11 the set of outputs the run waits for (`waitingOutputs`, whose emptiness raises `all outputs marked as unresolvable`) is filled in Execute with EVERY node of kind output: the store into that map is guarded, inside the loop over the DAG's nodes, by the kind test alone. A further condition (error outputs left out, say) ends a run with an error while a declared output is still producible")
+	wf := c.fLoop("waitingOutputs")
+	if wf == nil {
+		return
+	}
+	n := 0
+	for _, fn := range c.ifaceMethodImpls(pkgWorkflow, "ExecutableWorkflow", "Execute") {
+		for _, g := range c.logicalBody(fn) {
+			// the map that ends up in waitingOutputs
+			var target ssa.Value
+			eachInstr(g, func(r instrRef) {
+				st, ok := r.I.(*ssa.Store)
+				if !ok {
+					return
+				}
+				if fa, ok := st.Addr.(*ssa.FieldAddr); ok && fieldAddrVar(fa) == wf {
+					target = st.Val
+				}
+			})
+			if target == nil {
+				continue
+			}
+			// the map may be filled in a helper that Execute owns (`outputNodes := e.collectOutputNodes()`)
+			c.eachInstrLogical(fn, func(r instrRef) {
+				mu, ok := r.I.(*ssa.MapUpdate)
+				if !ok || !(sameVal(mu.Map, target) || derivesFrom(target, isValue(mu.Map))) {
+					return
+				}
+				n++
+				key := fmt.Sprintf("all-outputs-awaited@%s#%d", c.fnName(mu.Parent()), n)
+				var li *loopInfo
+				for _, l := range loopsOf(mu.Parent()) {
+					if l.Blocks[mu.Block()] {
+						li = l
+					}
+				}
+				if li == nil {
+					c.bad(rule, key, c.instrPos(mu), "the outputs the run waits for are not collected in a loop over the DAG's nodes")
+					return
+				}
+				// every branch inside the loop that dominates the store
+				var extra []string
+				kindTests := 0
+				for b := range li.Blocks {
+					if b == li.Header || len(b.Instrs) == 0 {
+						continue
+					}
+					ifi, ok := b.Instrs[len(b.Instrs)-1].(*ssa.If)
+					if !ok || !b.Dominates(mu.Block()) || b == mu.Block() {
+						continue
+					}
+					// is the store on one edge only?
+					leads := func(s *ssa.BasicBlock) bool {
+						return s != li.Header && (s == mu.Block() || s.Dominates(mu.Block()))
+					}
+					onTrue, onFalse := leads(b.Succs[0]), leads(b.Succs[1])
+					if onTrue == onFalse {
+						continue
+					}
+					if bo, ok := ifi.Cond.(*ssa.BinOp); ok && (bo.Op == token.EQL || bo.Op == token.NEQ) {
+						if f := loadedField(bo.X); f != nil && fieldName(f) == "Kind" {
+							if sv, isC := constString(bo.Y); isC && sv == "output" {
+								kindTests++
+								continue
+							}
+						}
+					}
+					extra = append(extra, "a further condition at "+c.instrPos(ifi))
+				}
+				c.verdict(kindTests == 1 && len(extra) == 0, rule, key, c.instrPos(mu), "every node of kind output is awaited",
+					fmt.Sprintf("the outputs the run waits for are not all nodes of kind output (kind tests: %d; %s): when the last awaited output fails the run is ended with `all outputs marked as unresolvable` although another declared output is still producible", kindTests, strings.Join(extra, "; ")))
+			})
+		}
+	}
+	c.minCount(rule, "stores into the awaited-outputs map", n, 1)
 }
